@@ -1,9 +1,10 @@
 (** C15 -- script arguments, functions, source, exit statuses. Statements only. *)
 From Cicada Require Import Base.Chars Base.Peg Gen.LocustGrammar Model.Script Model.ScriptAst Model.Args Model.ShellScript
-  Proofs.ArgsProofs Proofs.SetEProofs Proofs.ScriptProofs Proofs.ShellProofs Proofs.ShellCallsProofs Proofs.ShellFlagProofs Proofs.LocustParse Proofs.ShellTextProofs Proofs.ShellSourceProofs.
+  Proofs.ArgsProofs Proofs.SetEProofs Proofs.ScriptProofs Proofs.ShellProofs Proofs.ShellCallsProofs Proofs.ShellFlagProofs Proofs.LocustParse Proofs.ShellTextProofs Proofs.ShellSourceProofs Proofs.LocustIndent Proofs.ShellIndentProofs.
 From Coq Require Import ZArith String Ascii.
 
 Definition S2 (s : string) : str := map N_of_ascii (list_ascii_of_string s).
+Definition it_tab : str := (9 :: nil)%N.
 
 (** 1. Positional parameters. For every token without a newline and every
     argument vector, expand_args_for_single_token performs exactly the single
@@ -726,6 +727,66 @@ Proof.
   exists ft'. split; [exact H1 | exact H2].
 Qed.
 
+(** 3j. INDENTED flat texts (round 9c; Proofs/ShellIndentProofs.v), from C14_parse_indented: a block of command
+    lines, each with any indentation ([cmd_lines b = Some ls], b in fragI_block), is parsed to exactly its lines
+    or parse_from runs out of fuel; so a function-table entry whose body is written indented goes into tab_ok
+    through the theorem (C15_tab_ok_indented), and the flag-state theorem takes an indented script text
+    (C15_sete_calls_text_indented). Blank lines, break / continue lines are not in [cmd_lines]. *)
+Theorem C15_indented_text_parsed : forall b ls, fragI_block b = true -> cmd_lines b = Some ls ->
+  parse_from l_grammar L_EXP (render_block b) = PFuel \/ flat_parsed (render_block b) ls.
+Proof. exact indented_text_parsed. Qed.
+
+Theorem C15_tab_ok_indented : forall k b ls ft rt, fragI_block b = true -> cmd_lines b = Some ls ->
+  parse_from l_grammar L_EXP (render_block b) <> PFuel -> forallb ok_line ls = true ->
+  tab_ok ft rt -> tab_ok ((k, render_block b) :: ft) ((k, ls) :: rt).
+Proof. exact tab_ok_indented. Qed.
+
+Theorem C15_sete_calls_text_indented : forall ext file_text n ft rt, tab_ok ft rt ->
+  forall fuel b ls w e' tr st, fragI_block b = true -> cmd_lines b = Some ls ->
+  parse_from l_grammar L_EXP (render_block b) <> PFuel ->
+  forallb ok_line ls = true -> s_funcs w = ft ->
+  refl ext rt fuel ls (s_eoe w) 0%Z = Some (e', tr, st) ->
+  exists sts,
+    run_lines shs (exec_line ext file_text n fuel) no_words no_setvar s_eoe n (render_block b) w =
+      Some (Done (mk_shs e' ft (s_log w ++ tr)) sts false false)
+    /\ script_status sts = st.
+Proof.
+  intros ext file_text n ft rt Htab fuel b ls w e' tr st Hfr Hc Hnf Hok Hf Hr.
+  destruct (indented_text_parsed b ls Hfr Hc) as [F|P]; [contradiction|].
+  exact (flag_state_lines ext file_text n ft rt Htab fuel (render_block b) ls w e' tr st P Hok Hf Hr).
+Qed.
+
+(** instance: the body of f is written with two blanks / a tab of indentation, the main text with one blank *)
+Definition ti_body : block :=
+  BCons (SCmd (S2 "  ") (S2 "in1")) (BCons (SCmd it_tab (S2 "fail7")) (BCons (SCmd (S2 "  ") (S2 "last")) BNil)).
+Definition ti_main : block :=
+  BCons (SCmd nil (S2 "set -e")) (BCons (SCmd (S2 " ") (S2 "one")) (BCons (SCmd nil (S2 "f")) (BCons (SCmd nil (S2 "notreached")) BNil))).
+Example C15_sete_calls_text_indented_nonvacuous :
+  render_block ti_body = S2 "  in1
+	fail7
+  last
+" /\
+  exists sts,
+    run_lines shs (exec_line fs_ext (fun _ => None) 8 3) no_words no_setvar s_eoe 8 (render_block ti_main)
+      (mk_shs false [(S2 "f", render_block ti_body)] []) =
+      Some (Done (mk_shs true [(S2 "f", render_block ti_body)] [S2 "one"; S2 "in1"; S2 "fail7"]) sts false false)
+    /\ script_status sts = 7%Z.
+Proof.
+  split; [vm_compute; reflexivity|].
+  assert (Ht : tab_ok [(S2 "f", render_block ti_body)] [(S2 "f", [S2 "in1"; S2 "fail7"; S2 "last"])]).
+  { apply C15_tab_ok_indented; [vm_compute; reflexivity | vm_compute; reflexivity | vm_compute; discriminate
+                                | vm_compute; reflexivity | apply tab_nil]. }
+  apply (C15_sete_calls_text_indented fs_ext (fun _ => None) 8 _ _ Ht 3 ti_main
+           [S2 "set -e"; S2 "one"; S2 "f"; S2 "notreached"] (mk_shs false [(S2 "f", render_block ti_body)] [])
+           true [S2 "one"; S2 "in1"; S2 "fail7"] 7%Z).
+  - vm_compute. reflexivity.
+  - vm_compute. reflexivity.
+  - vm_compute. discriminate.
+  - vm_compute. reflexivity.
+  - reflexivity.
+  - vm_compute. reflexivity.
+Qed.
+
 (** The property, in full, and its refutation on the faithful model (what is left: a token
     holding a newline is not expanded -- first clause, stated for ALL tokens). *)
 Definition C15_full : Prop :=
@@ -802,6 +863,10 @@ Print Assumptions C15_sete_rest_of_body.
 Print Assumptions C15_sete_calls_trace.
 Print Assumptions C15_sete_calls_script.
 Print Assumptions C15_first_failure.
+Print Assumptions C15_indented_text_parsed.
+Print Assumptions C15_tab_ok_indented.
+Print Assumptions C15_sete_calls_text_indented.
+Print Assumptions C15_sete_calls_text_indented_nonvacuous.
 Print Assumptions C15_sete_source_trace.
 Print Assumptions C15_sete_source_trace_script.
 Print Assumptions C15_sete_source_trace_nonvacuous.
